@@ -1,1 +1,13 @@
-// harness bodies compiled inside quinn-proto/src/connection/assembler.rs (feature __verif-hooks)
+// Harness bodies for quinn-proto/src/connection/assembler.rs.
+
+/// An empty ordered-mode Assembler whose read cursor is arbitrary.
+pub fn mk_assembler(bytes_read: u64) -> Assembler {
+    Assembler {
+        state: State::Ordered,
+        data: BinaryHeap::new(),
+        buffered: 0,
+        allocated: 0,
+        bytes_read,
+        end: bytes_read,
+    }
+}
